@@ -27,13 +27,13 @@ class Pipeline(hg.Pipeline):
         self.done = {}          # design index -> hash of the design last generated there
 
     def generate(self, designs, cmds="gen"):
-        """Like httpgen.Pipeline.generate, but a design that was already generated successfully in this
-        pipeline (same content, same index) is not generated again."""
+        """Like httpgen.Pipeline.generate, but a design that was already put through the generator in this
+        pipeline (same content, same index) is not generated again: the outcome - files or refusal - stands."""
         import hashlib
         todo = []
         for i, d in enumerate(designs):
             h = hashlib.sha1(core.canon(d).encode()).hexdigest()
-            if self.done.get(i) == h and i not in self.failed:
+            if self.done.get(i) == h and (i in self.events):
                 continue
             self.done[i] = h
             self.failed.pop(i, None)
@@ -114,9 +114,119 @@ TAG0, TAG1, TAGY, TAGV, TAGW, RTAG0, RTAG1 = 3, 7, 9, 2, 5, 4, 6
 V, ABSENT, is_absent = hg.V, hg.ABSENT, hg.is_absent
 
 
+def path_of(a):
+    """The nesting of the attribute as a list of steps (GRPCTransport.tla: a.path); shapes of the one-step
+    envelope carry it implicitly in a.nest."""
+    if "path" in a:
+        return list(a["path"])
+    return [] if a["nest"] == "direct" else [a["nest"]]
+
+
+def composed(a):
+    return len(path_of(a)) >= 2
+
+
+def with_path(a):
+    """the attribute shape with its path spelled out (vectors recorded before nestings composed have none)"""
+    return a if "path" in a else dict(a, path=path_of(a))
+
+
+FIELD_BEARING = ("nested", "oneof")
+
+
+def tag_site(path):
+    """Index of the innermost step that declares numbered fields (a nested user type, a OneOf); -1: the request /
+    response message itself.  That is where tagmode dup / untagged writes its numbers (TagSite of GRPCTransport.tla)."""
+    idx = [i for i, s in enumerate(path) if s in FIELD_BEARING]
+    return idx[-1] if idx else -1
+
+
+def composed_design(a, name, mname, types, tag, tagmode="ok"):
+    """Design facts for an attribute whose nesting is a path of two or more steps: every step becomes the DSL
+    construct it names (alias: Type(name, T); elem: ArrayOf(T); mapkey / mapval: MapOf; nested: a user type with the
+    attributes v (the rest of the path) and w; oneof: OneOf with the members <method>x (the rest of the path) and
+    <method>y).  The leaf rule sits on the innermost alias type if the path ends with one, else on whatever holds
+    the primitive.  A user type that is a OneOf member carries the member's name at the end of its own name (the
+    runner finds union alternatives by that suffix)."""
+    path = path_of(a)
+    prim = {"kind": GKIND[(a["kind"], a["w"])]}
+    leafval = hg.rule_val(a) if a["rule"] not in ("cminlen", "cmaxlen") else None
+    site = tag_site(path)
+    count = [0]
+
+    def tname(kind, member):
+        count[0] += 1
+        return "%s%sL%d%s%s" % (mname.upper(), name.upper(), count[0], kind, (mname + "x").capitalize() if member else "")
+
+    def value(i, member=False):
+        """(type reference, leaf rule still to be attached by the holder) of the value path[i:]"""
+        if i == len(path):
+            return dict(prim), leafval
+        s = path[i]
+        if s == "alias":
+            base, val = value(i + 1)
+            tn = tname("Alias", member)
+            t = {"name": tn, "kind": "alias", "base": base}
+            if val:
+                t["val"] = val
+            types.append(t)
+            return {"kind": "user", "ref": tn}, None
+        if s in ("elem", "mapval", "mapkey"):
+            e, val = value(i + 1)
+            e = dict(e)
+            if val:
+                e["val"] = val
+            if s == "elem":
+                return {"kind": "array", "elem": e}, None
+            if s == "mapval":
+                return {"kind": "map", "key": {"kind": "string"}, "elem": e}, None
+            return {"kind": "map", "key": e, "elem": {"kind": "int32"}}, None
+        if s == "nested":
+            vnum, wnum = TAGV, TAGW
+            if i == site and tagmode == "untagged":
+                vnum = 0
+            if i == site and tagmode == "dup":
+                wnum = TAGV
+            v = field(i + 1, "v", vnum, True, TAGW)
+            w = {"name": "w", "type": {"kind": "string"}, "tag": wnum}
+            tn = tname("Nested", member)
+            types.append({"name": tn, "kind": "object", "attrs": [v, w]})
+            return {"kind": "user", "ref": tn}, None
+        raise ValueError("a OneOf is not a value: %r" % (path,))
+
+    def numbered(i, design, sibling):
+        """the number written for the field declared by step i (-1: the attribute itself)"""
+        if i != site or design == 0:
+            return design
+        return {"ok": design, "dup": sibling, "untagged": 0}[tagmode]
+
+    def field(i, fname, number, required, sibling):
+        """attribute facts of a field named fname whose value is path[i:]; `number` is what the design gives it,
+        `sibling` the number of a fixed neighbour (used by tagmode dup when this is the tag site)"""
+        if i < len(path) and path[i] == "oneof":
+            t, val = value(i + 1, member=True)
+            x = {"name": mname + "x", "type": t, "tag": numbered(i, number, sibling)}
+            if val:
+                x["val"] = val
+            y = {"name": mname + "y", "type": {"kind": "string"}, "tag": TAGY}
+            return {"name": fname, "type": {"kind": "union", "alts": [x, y]}, "required": required}
+        t, val = value(i)
+        att = {"name": fname, "type": t, "required": required, "tag": number}
+        if val:
+            att["val"] = val
+        return att
+    top = tag if site != -1 else {"ok": tag, "dup": TAG0, "untagged": 0}[tagmode]
+    att = field(0, name, top, a["mode"] == "required", TAG0)
+    if a["mode"] == "default":
+        att["default"] = hg.concrete_leaf(a, hg.default_of(a))
+    return att
+
+
 def attr_design(a, name, mname, types, tag, tagmode="ok"):
     """Design facts for the attribute under test. `tag` is the number the design gives it when it travels in
     the message (None: not numbered); tagmode in ok | dup | untagged decides how the numbers are actually written."""
+    if composed(a):
+        return composed_design(a, name, mname, types, tag, tagmode)
     prim = {"kind": GKIND[(a["kind"], a["w"])]}
     leafval = hg.rule_val(a) if a["rule"] not in ("cminlen", "cmaxlen") else None
     contval = {"minLen": LO} if a["rule"] == "cminlen" else ({"maxLen": HI} if a["rule"] == "cmaxlen" else None)
@@ -190,7 +300,16 @@ def method_design(idx, shape, types):
     a0 = {"name": "a0", "type": {"kind": "string"}, "required": True, "tag": TAG0}
     r0 = {"name": "r0", "type": {"kind": "string"}, "required": True, "tag": RTAG0}
     a1 = attr_design(pa, "a1", mname, types, TAG1 if pa["loc"] == "message" else None, shape.get("tagmode", "ok"))
-    r1 = attr_design(ra, "r1", mname, types, RTAG1 if ra["loc"] == "message" else None)
+    if shape.get("shared"):
+        # the result attribute has the very type of the payload attribute: the same user types serve two messages
+        import copy
+        r1 = copy.deepcopy(dict(a1, name="r1"))
+        if "tag" in r1:
+            r1["tag"] = RTAG1
+        else:
+            r1["type"]["alts"][0]["tag"] = RTAG1        # a OneOf: its first member carries the attribute's number
+    else:
+        r1 = attr_design(ra, "r1", mname, types, RTAG1 if ra["loc"] == "message" else None)
     pattrs, rattrs = [a0, a1], [r0, r1]
     g = {}
     if pa["loc"] == "metadata":
@@ -219,17 +338,39 @@ def method_design(idx, shape, types):
 
 
 def shape_of(v):
-    return {"pa": v["pa"], "ra": v["ra"], "stream": v.get("stream", "none"), "tagmode": v.get("tagmode", "ok"), "withmd": v.get("withmd", False),
-            "explicit": v.get("explicit", False)}
+    return {"pa": with_path(v["pa"]), "ra": with_path(v["ra"]), "stream": v.get("stream", "none"), "tagmode": v.get("tagmode", "ok"), "withmd": v.get("withmd", False),
+            "explicit": v.get("explicit", False), "shared": v.get("shared", False)}
 
 
 def shape_key(v):
     return core.canon(shape_of(v))
 
 
+def inexpressible(a):
+    """proto3 has no repeated / map members in a oneof (InexpressiblePath of GRPCTransport.tla)"""
+    p = path_of(a)
+    return any(p[i] == "oneof" and p[i + 1] in ("elem", "mapkey", "mapval") for i in range(len(p) - 1))
+
+
+def alias_of_alias(a):
+    p = path_of(a)
+    return any(p[i] == "alias" == p[i + 1] for i in range(len(p) - 1))
+
+
+def generator_stops(a):
+    """Shapes for which the generator of the unchanged tree is known to stop (C01-class, recorded in the evidence):
+    an alias of an alias; a length rule on a string that is a OneOf member or an alias outside the message."""
+    p = path_of(a)
+    return alias_of_alias(a) or (a["kind"] == "string" and a["rule"] in ("minlen", "maxlen") and
+                                 ("oneof" in p or ("alias" in p and a["loc"] != "message")))
+
+
 def risky(shape):
-    """Shapes whose design goa is expected to refuse get a design of their own (a refusal concerns the whole design)."""
-    return shape["tagmode"] != "ok"
+    """Shapes whose design is expected to fail as a whole get a design of their own: a refusal concerns the whole design,
+    and so does a generator that stops.  This only decides how methods are packed (one failing method would have the
+    other 39 of its design generated again one by one); a design that fails unexpectedly is taken apart anyway."""
+    return (shape["tagmode"] != "ok" or inexpressible(shape["pa"]) or inexpressible(shape["ra"])
+            or generator_stops(shape["pa"]) or generator_stops(shape["ra"]))
 
 
 def one_design(n, shapes, grp, where):
@@ -265,9 +406,42 @@ def isolate_designs(shapes, designs, where, broken):
 
 
 # ------------------------------------------------------------------ concretisation
+def concrete_path(a, v, mname):
+    """The datum of a composed nesting: the leaf (or, in a container, cn entries of which the last holds the leaf)
+    wrapped step by step; a OneOf holds member x (the rest of the path) or - value shape cn = 2 - member y."""
+    path = path_of(a)
+    leaf = hg.concrete_leaf(a, v)
+    alty = "oneof" in path and v["cn"] == 2
+    cn = 1 if "oneof" in path else v["cn"]
+
+    def wrap(i, x):
+        if i == len(path):
+            return x
+        s = path[i]
+        if s == "alias":
+            return wrap(i + 1, x)
+        if s == "nested":
+            return {"v": wrap(i + 1, x)}
+        if s == "oneof":
+            return {"$union": mname + "y", "value": "abc"} if alty else {"$union": mname + "x", "value": wrap(i + 1, x)}
+        if s == "elem":
+            return [wrap(i + 1, hg.filler(a))] * (cn - 1) + [wrap(i + 1, x)] if cn >= 1 else []
+        if s == "mapval":
+            m = {"k%d" % (j + 1): wrap(i + 1, hg.filler(a)) for j in range(cn - 1)}
+            if cn >= 1:
+                m["k%d" % cn] = wrap(i + 1, x)
+            return {"$map": m}
+        if s == "mapkey":
+            return {"$map": {hg.keystr(x): 7}} if cn >= 1 else {"$map": {}}
+        raise ValueError(s)
+    return wrap(0, leaf)
+
+
 def concrete(a, v, mname):
     if is_absent(v):
         return None
+    if composed(a):
+        return concrete_path(a, v, mname)
     if a["nest"] == "oneof":
         if v["cn"] == 2:
             return {"$union": mname + "y", "value": "abc"}
@@ -297,6 +471,33 @@ def randomized(datum, a, v, rng):
             n = len(base64.b64decode(x["$bytes"]))
             return {"$bytes": base64.b64encode(bytes(rng.randrange(1, 256) for _ in range(n))).decode()}
         return x
+    if composed(a):
+        path = path_of(a)
+        alty = "oneof" in path and v["cn"] == 2
+
+        def walk(i, x):
+            """the datum with the leaf (the last entry of a container) replaced by another member of its class"""
+            if i == len(path):
+                return leaf(x)
+            s = path[i]
+            if s == "alias":
+                return walk(i + 1, x)
+            if s == "nested":
+                return dict(x, v=walk(i + 1, x["v"]))
+            if s == "oneof":
+                return x if alty else {"$union": x["$union"], "value": walk(i + 1, x["value"])}
+            if s == "elem":
+                return x[:-1] + [walk(i + 1, x[-1])] if x else x
+            if s == "mapval":
+                m = dict(x["$map"])
+                last = "k%d" % len(m)
+                if last in m:
+                    m[last] = walk(i + 1, m[last])
+                return {"$map": m}
+            if s == "mapkey":
+                return {"$map": {(text(k) if a["kind"] == "string" else k): rng.randrange(0, 100) for k in x["$map"]}}
+            raise ValueError(s)
+        return walk(0, datum)
     nest = a["nest"]
     if nest in ("direct", "alias"):
         return leaf(datum)
@@ -376,9 +577,16 @@ def method_table(verdict, gometh, mname):
         for f in m["fields"]:
             t = f["type"]
             typ = t if t in SCALARS else ("map" if f["label"] == "map" else "message")
-            out["proto"].append({"msg": role, "name": strip(f["name"]), "number": f["number"], "label": f["label"], "type": typ, "oneof": f["oneof"]})
-            if typ == "message" and depth < 3:
-                fields(t, f["name"], depth + 1)
+            name = strip(f["name"])
+            out["proto"].append({"msg": role, "name": name, "number": f["number"], "label": f["label"], "type": typ, "oneof": f["oneof"]})
+            # the message a field refers to (for a map: its value type) is listed under the role "<field>" when the
+            # field belongs to the request / response message, else "<role of its message>.<field>"; a oneof member
+            # counts as a field of its group: "<group>.<member>"  (Role / RoleIn of GRPCTransport.tla)
+            sub = t if typ == "message" else (f.get("value") if typ == "map" and f.get("value") not in SCALARS else None)
+            if sub and depth < 6:
+                def below(r, n):
+                    return n if r in ("req", "res") else r + "." + n
+                fields(sub, below(role, f["oneof"]) + "." + name if f["oneof"] else below(role, name), depth + 1)
     fields(rpcs[0]["request"], "req")
     fields(rpcs[0]["response"], "res")
     return out
@@ -402,8 +610,8 @@ def unalt(x, mname):
             n = x["$union"].lower().replace("_", "")
             alt = "x" if n.endswith(mname + "x") else ("y" if n.endswith(mname + "y") else n)
             val = x.get("value")
-            if isinstance(val, dict) and len(val) == 1 and not any(k.startswith("$") for k in val):   # pb oneof wrapper struct: {member: value}
-                val = list(val.values())[0]
+            if isinstance(val, dict) and list(val) == [mname + alt]:   # pb oneof wrapper struct: {member: value}
+                val = val[mname + alt]
             return {"$union": mname + alt, "value": unalt(val, mname)}
         return {k: unalt(y, mname) for k, y in x.items()}
     if isinstance(x, list):
